@@ -417,11 +417,158 @@ def gen_strreg():
     return out
 
 
+def gen_cli():
+    """cli.py: effect order of main / parse_args / run, argparse defaults, option mapping, regex anchoring, header template,
+    preamble handling; models/base.py: the assembly expression of generate_code"""
+    tree = parse("cli.py")
+    cli = find_class(tree, "Cli")
+
+    def stmts(fn):
+        return [st for st in fn.body if not (isinstance(st, ast.Expr) and isinstance(st.value, ast.Constant))]
+
+    # ---- main()
+    mainf = find_func(tree, "main")
+    ms = [ast.unparse(st) for st in stmts(mainf)]
+    want_main = ["import os",
+                 "if os.getenv('TRAVIS', None) or os.getenv('FORCE_COVERAGE', None):\n    import coverage\n    coverage.process_startup()",
+                 "cli = Cli()", "cli.parse_args()", "print(cli.run())"]
+    if ms != want_main:
+        raise Unsupported("main() changed: " + repr(ms))
+    # ---- parse_args: classify each statement
+    def classify_parse(st):
+        u = ast.unparse(st)
+        if u == "parser = self.argparser":
+            return None
+        if u == "namespace = parser.parse_args(args)":
+            return "ParseArgv"
+        if u == "parser = getattr(FileLoaders, namespace.input_format)":
+            return None
+        if isinstance(st, (ast.Assign, ast.AnnAssign)):
+            val = st.value
+            # plain reads of the namespace (and one list comprehension over namespace.merge)
+            names = {n.id for n in ast.walk(val) if isinstance(n, ast.Name)}
+            calls = [ast.unparse(c.func) for c in ast.walk(val) if isinstance(c, ast.Call)]
+            if names <= {"namespace", "m"} and set(calls) <= {"m.split"}:
+                return None
+            raise Unsupported("parse_args: unexpected assignment " + u)
+        if u == "for name in namespace.disable_str_serializable_types:\n    registry.remove_by_name(name)":
+            return "MutateDefaultRegistry"
+        if u == "self.setup_models_data(namespace.model or (), namespace.list or (), parser)":
+            return "LoadSamples"
+        if u == "self.validate(merge_policy, framework, code_generator)":
+            return "Validate"
+        if u.startswith("self.set_args(merge_policy, structure, framework, code_generator, code_generator_kwargs_raw, dict_keys_regex, dict_keys_fields, disable_unicode_conversion, preamble)"):
+            return "SetArgs"
+        raise Unsupported("parse_args: unknown statement " + u)
+    pa = [c for c in (classify_parse(st) for st in stmts(find_func(cli, "parse_args"))) if c]
+    # ---- run
+    runf = find_func(cli, "run")
+    rs = stmts(runf)
+    ops = []
+    for st in rs[:-1]:
+        u = ast.unparse(st)
+        if u == "if self.enable_datetime:\n    register_datetime_classes()":
+            ops.append("MutateDefaultRegistry")
+        elif u in ("generator = MetadataGenerator(dict_keys_regex=self.dict_keys_regex, dict_keys_fields=self.dict_keys_fields)",
+                   "registry = ModelRegistry(*self.merge_policy)",
+                   "for name, data in self.models_data.items():\n    meta = generator.generate(*data)\n    registry.process_meta_data(meta, name)",
+                   "registry.merge_models(generator)", "registry.generate_names()",
+                   "structure = self.structure_fn(registry.models_map)"):
+            ops.append("Generate")
+        elif u == ("output = self.version_string + generate_code(structure, self.model_generator, "
+                   "class_generator_kwargs=self.model_generator_kwargs, preamble=self.preamble)"):
+            ops.append("BuildText")
+        else:
+            raise Unsupported("run: unknown statement " + u)
+    last = rs[-1]
+    want_last = ("if self.output_file:\n    with open(self.output_file, 'w', encoding='utf-8') as f:\n        f.write(output)\n"
+                 "    return f'Output is written to {self.output_file}'\nelse:\n    return output")
+    if ast.unparse(last) != want_last:
+        raise Unsupported("run: the output branch changed: " + ast.unparse(last))
+    # no other open( / print( / sys.stdout / .write( in the file
+    src = open(os.path.join(PKG, "cli.py"), encoding="utf8").read()
+    io_sites = {"open(": src.count("open("), "print(": src.count("print("), ".write(": src.count(".write("), "sys.stdout": src.count("sys.stdout")}
+    want_io = {"open(": 4, "print(": 2, ".write(": 1, "sys.stdout": 0}     # path.open() x3 in FileLoaders + the -o file; yaml message + main
+    if io_sites != want_io:
+        raise Unsupported("I/O sites of cli.py changed: " + repr(io_sites))
+    # ---- set_args: option mapping, anchoring, preamble
+    sa = ast.unparse(find_func(cli, "set_args"))
+    for frag in ["self.model_generator_kwargs = dict(post_init_converters=self.strings_converters, convert_unicode=not disable_unicode_conversion, max_literals=self.max_literals)",
+                 "self.dict_keys_regex = [re.compile(f'^(?:{r})$') for r in dict_keys_regex] if dict_keys_regex else ()",
+                 "self.dict_keys_fields = dict_keys_fields or ()",
+                 "if preamble:\n        preamble = preamble.strip()\n    self.preamble = preamble or None",
+                 "self.structure_fn = self.STRUCTURE_FN_MAPPING[structure]",
+                 "self.merge_policy.append(self.MODEL_CMP_MAPPING[name](*args))"]:
+        if frag not in sa:
+            raise Unsupported("set_args changed: missing " + frag[:60])
+    maps = {"MODEL_CMP_MAPPING": "{'percent': convert_args(ModelFieldsPercentMatch, lambda s: float(s) / 100), 'number': convert_args(ModelFieldsNumberMatch, int), 'exact': ModelFieldsEquals}",
+            "STRUCTURE_FN_MAPPING": "{'nested': compose_models, 'flat': compose_models_flat}",
+            "MODEL_GENERATOR_MAPPING": "{'base': convert_args(GenericModelCodeGenerator), 'attrs': convert_args(AttrsModelCodeGenerator, meta=bool_js_style), 'dataclasses': convert_args(DataclassModelCodeGenerator, meta=bool_js_style, post_init_converters=bool_js_style), 'pydantic': convert_args(PydanticModelCodeGenerator), 'sqlmodel': convert_args(SqlModelCodeGenerator)}"}
+    for k, v in maps.items():
+        if ast.unparse(class_const(cli, k)) != v:
+            raise Unsupported(f"{k} changed: " + ast.unparse(class_const(cli, k)))
+    # ---- argparse defaults
+    ap = find_func(cli, "_create_argparser")
+    dflt = {}
+    for c in ast.walk(ap):
+        if isinstance(c, ast.Call) and isinstance(c.func, ast.Attribute) and c.func.attr == "add_argument":
+            flags = [a.value for a in c.args if isinstance(a, ast.Constant)]
+            kw = {k.arg: k.value for k in c.keywords}
+            dflt[flags[-1]] = (ast.unparse(kw["default"]) if "default" in kw else None,
+                               ast.unparse(kw["action"]) if "action" in kw else None,
+                               ast.unparse(kw["choices"]) if "choices" in kw else None)
+    want_d = {"--framework": ("'base'", None, "list(cls.MODEL_GENERATOR_MAPPING.keys()) + ['custom']"),
+              "--structure": ("'flat'", None, "list(cls.STRUCTURE_FN_MAPPING.keys())"),
+              "--merge": ("['percent', 'number']", None, None),
+              "--max-strings-literals": ("GenericModelCodeGenerator.DEFAULT_MAX_LITERALS", None, None),
+              "--input-format": ("'json'", None, "['json', 'yaml', 'ini']"),
+              "--datetime": (None, "'store_true'", None), "--strings-converters": (None, "'store_true'", None),
+              "--no-unidecode": (None, "'store_true'", None), "--output": ("''", None, None),
+              "--preamble": (None, None, None), "--disable-str-serializable-types": ("[]", None, None)}
+    for k, v in want_d.items():
+        if dflt.get(k) != v:
+            raise Unsupported(f"argparse default of {k} changed: {dflt.get(k)}")
+    # ---- header
+    vs = find_func(cli, "version_string")
+    vb = [ast.unparse(st) for st in stmts(vs)]
+    want_vs = ["command = ' '.join(sys.argv).replace('\"\"\"', '\"\"\\\\\"')",
+               "return f'r\"\"\"\\ngenerated by json2python-models v{VERSION} at {datetime.now().ctime()}\\ncommand: {command}\\n\"\"\"\\n'"]
+    if vb != want_vs:
+        raise Unsupported("version_string changed: " + repr(vb))
+    # ---- generate_code assembly
+    base = parse("models/base.py")
+    gc = find_func(base, "generate_code")
+    gb = [ast.unparse(st) for st in stmts(gc)]
+    want_gc = ["(root, mapping) = structure",
+               "with AbsoluteModelRef.inject(mapping):\n    (imports, classes) = _generate_code(root, class_generator, class_generator_kwargs or {})\n    imports_str = ''",
+               "if imports:\n    imports_str = compile_imports(imports) + objects_delimiter",
+               "if preamble:\n    imports_str += preamble + objects_delimiter",
+               "return imports_str + objects_delimiter.join(classes) + '\\n'"]
+    gb = [x.replace("root, mapping = structure", "(root, mapping) = structure").replace("imports, classes = _generate_code", "(imports, classes) = _generate_code") for x in gb]
+    if gb != want_gc:
+        raise Unsupported("generate_code changed: " + repr(gb))
+    out = HEADER.format(src="cli.py, models/base.py")
+    out += "From J2M.Model Require Import Emit Cli.\n"
+    out += "Definition parse_args_ops : list op := [" + "; ".join(pa) + "].\n"
+    out += "Definition run_ops_common : list op := [" + "; ".join(ops) + "].\n"
+    out += "Definition cli_ops (with_file : bool) : list op := main_ops parse_args_ops run_ops_common with_file.\n"
+    dml = nat_const(class_const(find_class(base, "GenericModelCodeGenerator"), "DEFAULT_MAX_LITERALS"))
+    out += ("Definition cli_defaults : defaults := {| d_framework := " + coq_str("base") + "; d_structure := " + coq_str("flat") +
+            "; d_merge := [" + coq_str("percent") + "; " + coq_str("number") + f"]; d_max_literals := {dml}; d_input_format := " + coq_str("json") +
+            "; d_datetime := false; d_strings_converters := false; d_disable_unicode := false; d_output := [] |}.\n")
+    out += "Definition anchor_template : list str := [" + coq_str("^(?:") + "; " + coq_str(")$") + "].   (* prefix, suffix around the user's regex *)\n"
+    out += ("Definition header_template : list str := [" + "; ".join(coq_str(x) for x in ['r"""\n', "generated by json2python-models v", " at ", "\ncommand: ", '\n"""\n']) +
+            "].   (* fragments around VERSION, ctime, command *)\n")
+    out += "Definition header_replace : str * str := (" + coq_str('"""') + ", " + coq_str('""\\"') + ").\n"
+    return out
+
+
 GENERATORS = {
     "Limits": gen_limits,
     "Labels": gen_labels,
     "Cmp": gen_cmp,
     "StrReg": gen_strreg,
+    "Cli": gen_cli,
 }
 
 
